@@ -213,7 +213,8 @@ func (g *gen) expr(d int) string {
 			case 0:
 				return g.ident() + " default " + g.expr(d-1)
 			case 1:
-				return "render \"p.html\""
+				// paths may hold characters that need quoting in a string literal
+				return "render " + g.pick("\"p.html\"", "\"p.html\"", "\"a\\\"b.html\"", "\"a\\\\b.html\"", "`p.html`")
 			default:
 				return g.ident() + "() default " + g.expr(d-1)
 			}
@@ -449,7 +450,7 @@ func (g *gen) template() string {
 	g.tmpl = true
 	s := ""
 	if g.r.Intn(8) == 0 {
-		s += "{% extends \"l.html\" %}"
+		s += "{% extends " + g.pick("\"l.html\"", "\"l.html\"", "\"l\\\"x.html\"", "\"l\\\\x.html\"") + " %}"
 	}
 	if g.r.Intn(6) == 0 {
 		s += "{% import " + g.pick("", "p ") + "\"i.html\"" + g.pick("", " for A, B") + " %}"
